@@ -44,6 +44,9 @@ class VirtualHosts(BaseComponent):
         super().__init__()
 
         self.domains = domains
+        if isinstance(trusted_gateways, str):
+            # (one address: `peer in "192.168.10.1"` would be a substring test)
+            trusted_gateways = (trusted_gateways,)
         self.trusted_gateways = trusted_gateways
 
     def _peer(self, request):
